@@ -323,3 +323,124 @@ def _sign_axioms(x, s, c, PI):
         z3.Implies(z3.And(x < -PI, x > -2 * PI), s > 0),
         z3.Implies(z3.Or(x == PI, x == -PI), z3.And(s == 0, c == -1)),
     ]
+
+
+# ------------------------------------------------------------------------------------------------
+# _arc_to_cubic: any number of segments (independent iterations, one arbitrary i)
+# ------------------------------------------------------------------------------------------------
+@obligation((P, "C09"), "arc.segments", split=("flags", FLAGS), functions=[F + "_arc_to_cubic"])
+def segments(H):
+    """Given the centre parametrisation (contract of arc.centre_and_flags): n >= 1 segments of at most pi/2 + 0.001 each;
+    segment i is the standard cubic for [theta1 + i d, theta1 + (i+1) d] (control distance 4/3 tan(d/4)) mapped by
+    translate(c) rotate(phi) scale(rx, ry); every intermediate end point is on the ellipse; the last end point is the
+    arc's end point exactly; exactly one segment per iteration."""
+    from picosvg.arc_to_cubic import CenterParametrization
+    from picosvg.svg_transform import Affine2D
+
+    start, rx, ry, rot, end = _arc_inputs(H)
+    large, sweep = H.case("flags", FLAGS)
+    arc = EllipticalArc(start, rx, ry, rot, large, sweep, end)
+    if H.mode == "concrete":
+        return _segments_native(H, arc)
+    from pyvc import loops
+
+    loops.install(H)
+    H.assume(And(rx > 0, ry > 0))
+    s, co = _frame(H, rot)
+    th1, dth = H.real("theta1"), H.real("theta_arc")
+    c = Point(H.real("cx"), H.real("cy"))
+    # contract of end_to_center_parametrization (proved in arc.centre_and_flags)
+    H.assume(And(dth > -2 * H.PI, dth < 2 * H.PI, Not(H.close(dth, 0))))
+    T = lambda u: (c.x + co * rx * u[0] - s * ry * u[1], c.y + s * rx * u[0] + co * ry * u[1])
+    s1, c1 = H.trig(th1)
+    H.assume(H.close(T((c1, s1)), tuple(start)))
+    se, ce = H.trig(th1 + dth)
+    H.assume(H.close(T((ce, se)), tuple(end)))
+    corrected = []
+    H.override(EllipticalArc.correct_out_of_range_radii, lambda I, a: (corrected.append(a), a)[1])
+    H.override(EllipticalArc.end_to_center_parametrization, lambda I, a: CenterParametrization(th1, dth, c))
+    H.override(range, lambda I, n: loops.AbsSeq("range") if hasattr(n, "z") else range(n))
+    box = {}
+
+    class Each(loops.LoopContract):
+        def check_init(self, env, it):
+            n = next(v for k, v in env.items() if hasattr(v, "z") and v.z.sort().kind() == 2)  # the Int-valued local: num_segments
+            # the code's constant is the float 0.5*pi + 0.001; pi itself is only known to 1e-8 here
+            h = H.PI / 2 + 0.001
+            H.prove(And(n >= 1, abs(dth) <= n * (h + 1e-8), abs(dth) > (n - 1) * (h - 1e-8)), "segments.count_is_ceil_of_extent_over_quarter_turn")
+            H.prove(len(corrected) == 1 and corrected[0] is arc, "segments.radii_are_corrected_first")
+
+        def havoc(self, env, it):
+            self.n = next(v for k, v in env.items() if hasattr(v, "z") and v.z.sort().kind() == 2)
+            self.before = len(H.interp.frames[-1].yields)
+            H.assume(self.n >= 1)  # established before the loop (segments.count_...), num_segments is not modified
+
+        def element(self, env, it):
+            self.i = H.int("i")
+            H.assume(And(self.i >= 0, self.i < self.n))
+            self.last = H.case("segment", ("last", "inner"))
+            H.assume(H.close(self.i, self.n - 1) if self.last == "last" else Not(H.close(self.i, self.n - 1)))
+            return self.i
+
+        def check_step(self, env, it, item):
+            ys = H.interp.frames[-1].yields
+            H.prove(len(ys) == self.before + 1, "segments.one_cubic_per_iteration")
+            if len(ys) != self.before + 1:
+                return
+            p1, p2, e = ys[-1]
+            n, i = self.n, self.i
+            d = dth / n
+            ts, te = th1 + i * dth / n, th1 + (i + 1) * dth / n  # written as in the code so the same sin/cos symbols are hit
+            H.trig_sum(ts, d)
+            ss, cs = H.trig(ts)
+            s2, c2 = H.trig(te)
+            quarter = 0.25 * (te - ts)  # written as in the code
+            sq, cq = H.trig(quarter)
+            H.prove(H.close(quarter, d / 4), "segments.step_is_extent_over_n")
+            H.prove(abs(d) <= H.PI / 2 + 0.001 + 1e-8, "segments.each_spans_at_most_quarter_turn_plus_0.001")
+            # control distance k = 4/3 tan(d/4), tan characterised by tan * cos == sin
+            tq = H.call(math.tan, 0.25 * (te - ts))
+            H.prove(H.close(tq * cq, sq), "segments.control_distance_uses_tan_of_quarter_step")
+            k = 4 * tq / 3
+            # identities between terms over the same sin/cos/tan symbols: only the branch conditions are needed (axioms hidden)
+            H.prove_raw(H.ctx.pc, H.close(tuple(p1), T((cs - k * ss, ss + k * cs))), "segments.first_control_point_on_start_tangent")
+            H.prove_raw(H.ctx.pc, H.close(tuple(p2), T((c2 + k * s2, s2 - k * c2))), "segments.second_control_point_on_end_tangent")
+            if self.last == "last":
+                H.prove(e is end or H.close(tuple(e), tuple(end)), "segments.last_segment_ends_exactly_at_arc_end_point")
+            else:
+                H.prove_raw(H.ctx.pc, H.close(tuple(e), T((c2, s2))), "segments.inner_end_point_on_the_ellipse")
+
+    H.ctx.loop_contracts[("_arc_to_cubic", 0)] = Each(H)
+    out, e = H.catch(_arc_to_cubic, arc)
+    H.prove(e is None, "segments.no_exception", detail=repr(e))
+
+
+def _segments_native(H, arc):
+    """native counterpart (replay): sample the produced cubics against the ellipse of the corrected arc"""
+    if arc.is_straight_line() or arc.is_zero_length():
+        from pyvc.vc import PathInfeasible
+
+        raise PathInfeasible()
+    a = arc._replace(rx=abs(arc.rx), ry=abs(arc.ry)).correct_out_of_range_radii()
+    th1, dth, c = a.end_to_center_parametrization()
+    segs = list(_arc_to_cubic(arc._replace(rx=abs(arc.rx), ry=abs(arc.ry))))
+    n = len(segs)
+    H.prove(n >= 1 and abs(dth) / n <= math.pi / 2 + 0.0011, "segments.each_spans_at_most_quarter_turn_plus_0.001")
+    H.prove(tuple(segs[-1][2]) == tuple(arc.end_point), "segments.last_segment_ends_exactly_at_arc_end_point")
+    phi = math.radians(a.rotation)
+    worst = 0.0
+    cur = tuple(arc.start_point)
+    for (p1, p2, e) in segs:
+        for k in range(0, 11):
+            t = k / 10
+            m = 1 - t
+            x = m ** 3 * cur[0] + 3 * m * m * t * p1[0] + 3 * m * t * t * p2[0] + t ** 3 * e[0]
+            y = m ** 3 * cur[1] + 3 * m * m * t * p1[1] + 3 * m * t * t * p2[1] + t ** 3 * e[1]
+            dx, dy = x - c[0], y - c[1]
+            ux, uy = (math.cos(phi) * dx + math.sin(phi) * dy) / a.rx, (-math.sin(phi) * dx + math.cos(phi) * dy) / a.ry
+            worst = max(worst, abs(math.hypot(ux, uy) - 1))
+        cur = tuple(e)
+    ok = worst <= 3.0e-4
+    for lab in ("segments.first_control_point_on_start_tangent", "segments.second_control_point_on_end_tangent", "segments.inner_end_point_on_the_ellipse",
+                "segments.control_distance_uses_tan_of_quarter_step", "segments.one_cubic_per_iteration", "segments.count_is_ceil_of_extent_over_quarter_turn"):
+        H.prove(ok, lab, detail=f"worst relative radial deviation {worst:.3g}")
